@@ -203,9 +203,29 @@ class Check:
             if t not in self.assumptions:
                 self.assumptions.append(t)
 
-    def fn(self, rel, qual):
+    def fn(self, rel, qual, canonical=False):
+        if canonical:
+            cache = self.__dict__.setdefault("_canon_cache", {})
+            if (rel, qual) not in cache:
+                from .canon import inline_aliases
+                cache[(rel, qual)] = inline_aliases(self.fn(rel, qual))
+            return cache[(rel, qual)]
+        """the anchored function, with calls to local and private helpers expanded in place (canon.inline_helpers): a rule sees
+        the same statements whether or not a maintainer has moved some of them into `_helper(...)`"""
         self.functions.add(f"{rel}:{qual}")
-        return self.idx.func(rel, qual)
+        raw = self.idx.func(rel, qual)
+        key = (rel, qual)
+        cache = self.__dict__.setdefault("_fn_cache", {})
+        if key not in cache:
+            from .canon import inline_helpers
+            res = self.__dict__.get("_resolver")
+            if res is None:
+                res = self.__dict__["_resolver"] = private_helper_resolver(self.idx)
+            f, log = inline_helpers(raw, res)
+            for h in log:
+                self.functions.add(f"{rel}:{qual} <- helper {h} (expanded)")
+            cache[key] = f
+        return cache[key]
 
     def borrow(self, rule_fn, mapping, *args, **kw):
         """Run a rule function of another property on a scratch Check and adopt
